@@ -14,7 +14,7 @@ from vlib import gen
 
 SDL = """
 scalar Stamp
-type Query { events(after: Stamp!, before: Stamp, third: Stamp): [Post] user(id: ID!, tags: [String!], f: Filter): User users(first: Int = 3, ids: [ID!]!): [User!]! search(text: String!): [Thing!]! me: User node(id: ID!): Node }
+type Query { events(after: Stamp!, before: Stamp, third: Stamp): [Post] window(start: Stamp!, end: Stamp): [Post] user(id: ID!, tags: [String!], f: Filter): User users(first: Int = 3, ids: [ID!]!): [User!]! search(text: String!): [Thing!]! me: User node(id: ID!): Node }
 type Mutation { rename(id: ID!, newName: String!): User stamp(at: Stamp!, until: Stamp!): Post }
 interface Node { id: ID! }
 type User implements Node { id: ID! userName: String friends(first: Int, kinds: [Kind!]): [User!] bestFriend(depth: Int): User posts(after: String, since: Stamp): [Post] }
@@ -47,6 +47,7 @@ SHAPES = [
     ("iface_member_args", 'Query.node(id="7").fields(NodeInterface.id).on("User", UserFields.friends(first=2).fields(UserFields.id))', {"id": ("ID!", "7"), "first": ("Int", 2)}),
     ("union_member_args", 'Query.search(text="q").on("User", UserFields.friends(first=4).fields(UserFields.id)).on("Post", PostFields.comments(limit=1))',
      {"text": ("String!", "q"), "first": ("Int", 4), "limit": ("Int!", 1)}),
+    ("scalar_falsy", 'Query.window(start="", end="").fields(PostFields.id)', {"start": ("Stamp!", '""'), "end": ("Stamp", '""')}),
     ("scalar_subfield", 'Query.me().fields(UserFields.posts(since="s").fields(PostFields.title))', {"since": ("Stamp", '"s"')}),
     # a scalar configured with serialize=json.dumps: every argument of it travels as dumps(value), the first one and the later ones
     ("scalar_one", 'Query.events(after="a").fields(PostFields.id)', {"after": ("Stamp!", '"a"')}),
